@@ -339,6 +339,11 @@ func httpCase(in caseIn, name string) {
 		if kind == 1 {
 			intent = textIntent(body, hd.maxMsg, hd.maxBody)
 		}
+		if kind == 2 {
+			if bs, ok := strictBatch(body, hd.maxMsg, hd.maxBody); ok {
+				intent, want = 1, bs
+			}
+		}
 		cls = "explicit"
 	}
 	cl := int64(len(body))
@@ -374,4 +379,30 @@ func httpCase(in caseIn, name string) {
 			lib.CoqZ(count), lib.CoqBytesList(got)),
 		Input: in, Tags: append(extra, "kind=http", "http="+cls, fmt.Sprintf("http_status=%d:%s", status, msg), fmt.Sprintf("chunked=%v", chunked), fmt.Sprintf("small_limits=%v", small)),
 		Nontrivial: true, Obs: map[string]interface{}{"status": status, "message": msg, "count": count}})
+}
+
+// strictBatch: the harness's own reading of a binary batch: the whole input is one batch
+// within the limits.
+func strictBatch(b []byte, maxMsg, maxBody int64) ([][]byte, bool) {
+	if int64(len(b)) > maxBody || len(b) < 4 {
+		return nil, false
+	}
+	count := int64(int32(uint32(b[0])<<24 | uint32(b[1])<<16 | uint32(b[2])<<8 | uint32(b[3])))
+	if count <= 0 || count > (maxBody-4)/5 {
+		return nil, false
+	}
+	rd := b[4:]
+	var bodies [][]byte
+	for i := int64(0); i < count; i++ {
+		if len(rd) < 4 {
+			return nil, false
+		}
+		k := int64(int32(uint32(rd[0])<<24 | uint32(rd[1])<<16 | uint32(rd[2])<<8 | uint32(rd[3])))
+		if k <= 0 || k > maxMsg || int64(len(rd)) < 4+k {
+			return nil, false
+		}
+		bodies = append(bodies, rd[4:4+k])
+		rd = rd[4+k:]
+	}
+	return bodies, len(rd) == 0
 }
